@@ -1,5 +1,6 @@
 import Nv.Proofs.C20Byte
 import Nv.Proofs.C20B64
+import Nv.Proofs.C20Dur
 /-!
 C20 — property theorems for the `tex` scalar wrappers (model `Nv.Model.C20`, reference `Nv.Spec.C20`).
 Every statement quantifies over all byte strings / all values of the type; the configuration `c`
@@ -183,26 +184,146 @@ theorem hex_roundtrip_i32 (v : Int) (hlo : -(2 ^ 63 : Int) ≤ v) (hhi : v < 2 ^
 theorem sql_unixnano_roundtrip (v : Int) : scanTs (.i64 v) = v := rfl
 theorem sql_stamp_roundtrip (old v : Int) : scanStamp old (.time v) = v := rfl
 
-/-
-Duration round trip — FULL STATEMENT (not proved; what is missing is the lemma
-`∀ d, -2^63 ≤ d → d < 2^63 → parseDuration (durString d) = .ok d` about the hand-written models of
-`time.Duration.String` / `time.ParseDuration`):
+/-- `time.ParseDuration(d.String()) = d` for every int64 duration — zero, negative and the extremes included
+    (on the hand-written models of the two library functions, which the correspondence validates) -/
+theorem duration_string_parses (d : Int) (hlo : -(2 ^ 63 : Int) ≤ d) (hhi : d < 2 ^ 63) :
+    parseDuration (durString d) = .ok d :=
+  parseDuration_durString d hlo hhi
 
-  theorem dur_roundtrip (c : Cfg) (hc : Proved c) (d : Int) (hlo : -(2^63 : Int) ≤ d) (hhi : d < 2^63) :
-      decodeDur c.dur (encodeDur d) = .ok d
-
-Proved below relative to that law; the law is checked by `decide` on the extremes and by the correspondence.
--/
-theorem dur_roundtrip_partial (c : Cfg) (hc : Proved c) (d : Int)
-    (law : parseDuration (durString d) = .ok d) (hlen : 2 ≤ (durString d).length) :
+/-- Duration: marshal then unmarshal gives back the duration -/
+theorem dur_roundtrip (c : Cfg) (hc : Proved c) (d : Int) (hlo : -(2 ^ 63 : Int) ≤ d) (hhi : d < 2 ^ 63) :
     decodeDur c.dur (encodeDur d) = .ok d := by
   have hk : c.dur.kind ≠ .unknown := by rcases hc.2.2.2.2.2.2.1 with h | h <;> simp [h]
   have hp : c.dur.parser = .parseDuration := hc.2.2.2.2.2.2.2.2.2.2.2.2.2.1
   have hm : c.dur.minLen ≤ 4 := hc.2.2.2.2.2.2.2.2.2.2.2.2.2.2.2.2.2.2.2.2.2
+  have hlen := durString_length d hlo hhi
   unfold decodeDur encodeDur
   simp only [quote, hp, ne_eq, not_true_eq_false, if_false]
   rw [strip_quoted c.dur hk _ (by omega)]
-  exact law
+  exact parseDuration_durString d hlo hhi
+
+/-! ### completeness on quoted tokens, and the only panicking input -/
+
+/-- every quoted signed decimal inside int64 (leading zeros, `+` allowed) decodes to its value — for the
+    `Atoi`-based wrappers (JsInt64, JsUnixTime, JsNanoTime, UnixStamp) under any known strip kind -/
+theorem unmarshal_complete_quoted (w : Wrap) (hk : w.kind ≠ .unknown) (hp : w.parser = .atoi) (s : Bytes) (v : Int)
+    (hl : w.minLen ≤ s.length + 2) (hd : denotesCore s v) (hlo : -(2 ^ 63 : Int) ≤ v) (hhi : v < 2 ^ 63) :
+    decodeInt w (34 :: (s ++ [34])) = .ok v := by
+  have hne : s.isEmpty = false := by
+    rcases hd with ⟨hd, _⟩ | ⟨t, rfl, _⟩ | ⟨t, rfl, _⟩
+    · cases s with
+      | nil => exact absurd rfl hd.1
+      | cons _ _ => rfl
+    · rfl
+    · rfl
+  unfold decodeInt
+  rw [strip_quoted w hk s hl]
+  simp only [hne, Bool.and_false, Bool.false_eq_true, if_false, hp, runParser]
+  exact parse_int_complete s v hd hlo hhi
+
+/-- … and a quoted decimal outside int64 is refused with a range error -/
+theorem unmarshal_range_quoted (w : Wrap) (hk : w.kind ≠ .unknown) (hp : w.parser = .atoi) (s : Bytes) (v : Int)
+    (hl : w.minLen ≤ s.length + 2) (hd : denotesCore s v) (hout : v < -(2 ^ 63 : Int) ∨ 2 ^ 63 ≤ v) :
+    decodeInt w (34 :: (s ++ [34])) = .err .range := by
+  have hne : s.isEmpty = false := by
+    rcases hd with ⟨hd, _⟩ | ⟨t, rfl, _⟩ | ⟨t, rfl, _⟩
+    · cases s with
+      | nil => exact absurd rfl hd.1
+      | cons _ _ => rfl
+    · rfl
+    · rfl
+  unfold decodeInt
+  rw [strip_quoted w hk s hl]
+  simp only [hne, Bool.and_false, Bool.false_eq_true, if_false, hp, runParser]
+  exact parse_int_never_wraps s v hd hout
+
+theorem runParser_no_panic (p : Parser) (s : Bytes) : runParser p s ≠ .panic := by
+  have hu : ∀ base bits n t, parseUintLoop base bits n t ≠ .panic := by
+    intro base bits n t
+    induction t generalizing n with
+    | nil => simp [parseUintLoop]
+    | cons c cs ih =>
+      simp only [parseUintLoop]
+      split
+      · simp
+      · split
+        · simp
+        · split
+          · simp
+          · exact ih _
+  have hpu : ∀ base bits t, parseUint base bits t ≠ .panic := by
+    intro base bits t
+    cases t with
+    | nil => simp [parseUint]
+    | cons c cs => simp only [parseUint]; exact hu _ _ _ _
+  have hs : ∀ bits neg (r : Res Nat), r ≠ .panic → signedOf bits neg r ≠ .panic := by
+    intro bits neg r hr
+    cases r with
+    | panic => exact absurd rfl hr
+    | err e => simp [signedOf]
+    | ok un => simp only [signedOf]; split <;> split <;> simp
+  cases p with
+  | atoi =>
+    simp only [runParser, atoi]
+    cases s with
+    | nil => simp [parseInt]
+    | cons c cs =>
+      simp only [parseInt]
+      split
+      · exact hs _ _ _ (hpu _ _ _)
+      · split
+        · exact hs _ _ _ (hpu _ _ _)
+        · exact hs _ _ _ (hpu _ _ _)
+  | parseUint64 =>
+    simp only [runParser]
+    cases h : parseUint 10 64 s with
+    | panic => exact absurd h (hpu _ _ _)
+    | err e => simp [toIntRes]
+    | ok n => simp [toIntRes]
+  | parseDuration => simp [runParser]
+  | fromString => simp [runParser]
+  | unknown => simp [runParser]
+
+/-- a wrapper that checks its quotes and rejects the empty input panics on exactly one input: the lone
+    quote character (`b[1:0]`; today's JsInt64) — which no JSON library ever passes -/
+theorem panic_only_lone_quote (w : Wrap) (hw : w.Checked) (hm : 1 ≤ w.minLen) (b : Bytes)
+    (h : decodeInt w b = .panic) : b = [34] := by
+  unfold decodeInt at h
+  split at h
+  · cases h
+  · rename_i hs
+    unfold strip at hs
+    split at hs
+    · cases hs
+    · rename_i hlen
+      rcases hw with hk | hk <;> simp only [hk] at hs
+      all_goals
+        split at hs
+        · rename_i h0; omega
+        · split at hs
+          · rename_i hq
+            split at hs
+            · rename_i hl2
+              cases b with
+              | nil => simp at hlen; omega
+              | cons x xs =>
+                cases xs with
+                | nil =>
+                  simp only [isQuoted, quote, List.head?_cons, decide_eq_true_eq, Option.some.injEq] at hq
+                  rw [hq.1]
+                | cons y ys => simp only [List.length_cons] at hl2; omega
+            · cases hs
+          · cases hs
+  · exact absurd h (runParser_no_panic _ _)
+  · split at h
+    · cases h
+    · exact absurd h (runParser_no_panic _ _)
+
+/-- JsInt64 as it is today: the lone quote panics (`b[1:0]`), and nothing else does -/
+theorem i64_lone_quote_panics_today : decodeInt Cfg.today.i64 [34] = .panic := by decide
+theorem i64_panics_only_on_lone_quote (c : Cfg) (hc : Proved c) (hm : 1 ≤ c.i64.minLen) (b : Bytes)
+    (h : decodeInt c.i64 b = .panic) : b = [34] :=
+  panic_only_lone_quote _ hc.1 hm b h
 
 /-! ### non-vacuity -/
 
@@ -214,9 +335,8 @@ example : denotes [34, 45, 49, 50, 34] (-12) :=                                 
   Or.inl ⟨[45, 49, 50], rfl, Or.inl (Or.inr (Or.inr ⟨[49, 50], rfl, ⟨by simp, by decide⟩, by decide⟩))⟩
 example : decodeBytes Cfg.repaired.byte .rangeChecked [34, 51, 48, 48, 47, 45, 49, 34] = .err .byteRange := by decide  -- "300/-1"
 example : decodeBytes Cfg.repaired.byte .rangeChecked [34, 55, 47, 50, 53, 53, 34] = .ok [7, 255] := by decide    -- "7/255"
-example : parseDuration (durString 0) = .ok 0 := by decide
-example : parseDuration (durString 1500) = .ok 1500 := by decide
-example : parseDuration (durString (-90000000001)) = .ok (-90000000001) := by decide
+example : durString (-90000000001) = [45, 49, 109, 51, 48, 46, 48, 48, 48, 48, 48, 48, 48, 48, 49, 115] := by decide  -- -1m30.000000001s
+example : parseDuration [49, 104, 50, 109, 51, 46, 53, 115] = .ok 3723500000000 := by decide                          -- 1h2m3.5s
 
 /-! ### today's configuration: the property is false (each witness is also the replay on the Go side) -/
 
